@@ -183,12 +183,73 @@ class Check:
                            "%s: '%s' is reachable under %s %s" % (fl.fn.name, s.desc()[:100], assumption, why), fl.witness(s))
         return ss
 
-    def trigger_edges(self, fn, matcher, val):
+    # ---- closure of a condition through local definitions ------------------------------------
+    def local_defs(self, fn):
+        """{local name: [defining expression trees]} from declarations and assignments in fn"""
+        c = getattr(fn, "_local_defs", None)
+        if c is not None:
+            return c
+        d = {}
+        for b in fn.blocks.values():
+            for ev in b["ev"]:
+                if ev.get("e") == "decl" and ev.get("init") is not None:
+                    d.setdefault(ev["d"], []).append(ev["init"])
+                elif ev.get("e") == "asg":
+                    l = E.strip(ev.get("lhs"))
+                    if isinstance(l, dict) and l.get("k") == "ref" and l.get("dk") in ("local", "static") and ev.get("rhs") is not None:
+                        d.setdefault(l["d"], []).append(ev["rhs"])
+        fn._local_defs = d
+        return d
+
+    def closure_mentions(self, fn, tree, depth=3):
+        defs = self.local_defs(fn)
+        out = set(E.mentions(tree))
+        frontier = set(out)
+        for _ in range(depth):
+            nxt = set()
+            for n in frontier:
+                for t in defs.get(n, []):
+                    nxt |= E.mentions(t)
+            nxt -= out
+            if not nxt:
+                break
+            out |= nxt
+            frontier = nxt
+        return out
+
+    def m_closure(self, fn, *names):
+        """atom mentions all `names`, looking through the definitions of locals it uses"""
+        s = set(names)
+        return E.M(lambda t: s <= self.closure_mentions(fn, t), "mentions*(%s)" % ",".join(names))
+
+    def m_result_of(self, fn, callee):
+        """atom is a call of `callee`, or a local every definition of which is exactly such a call"""
+        defs = self.local_defs(fn)
+
+        def is_call(t):
+            t = E.strip(t)
+            return isinstance(t, dict) and t.get("k") == "call" and t.get("f") == callee
+
+        def pred(t):
+            t = E.strip(t)
+            if is_call(t):
+                return True
+            if isinstance(t, dict) and t.get("k") == "ref" and t.get("dk") in ("local", "static"):
+                ds = defs.get(t["d"], [])
+                return bool(ds) and all(is_call(x) for x in ds)
+            if isinstance(t, dict) and t.get("k") == "bin" and t.get("op") == "=":
+                return is_call(t.get("r"))
+            return False
+        return E.M(pred, "result-of(%s)" % callee)
+
+    def trigger_edges(self, fn, matcher, val, term_kinds=None):
         """[(block id, label, successor id)] of two-way edges on which atom `matcher` is implied to be `val`"""
         out = []
         for b in fn.blocks.values():
             term = b.get("term")
             if not term or term.get("c") is None:
+                continue
+            if term_kinds and term.get("k") not in term_kinds:
                 continue
             for s in b["succ"]:
                 if s.get("lab") in ("T", "F"):
@@ -198,10 +259,10 @@ class Check:
                             break
         return out
 
-    def require_response(self, rule, fn, matcher, val, response, name, min_edges=1, until=None, exits=("ret", "fall"), why="", **flowkw):
+    def require_response(self, rule, fn, matcher, val, response, name, min_edges=1, until=None, exits=("ret", "fall"), why="", term_kinds=None, **flowkw):
         """RESPONSE: after every edge on which atom `matcher`==val, each path passes an event satisfying `response`
         before the function returns, before `until` sites and before the atom is tested again"""
-        edges = self.trigger_edges(fn, matcher, val)
+        edges = self.trigger_edges(fn, matcher, val, term_kinds)
         if len(edges) < min_edges:
             raise AnalysisBroken("%s: RESPONSE trigger %s=%s matched %d edge(s) in %s, expected >= %d" % (self.pid, matcher.desc, val, len(edges), fn.name, min_edges))
         for (bid, lab, to) in edges:
@@ -314,7 +375,8 @@ class Check:
             print("KNOWN-FINDING: property=%s %s at %s: %s" % (self.pid, k["key"], k["where"], k["what"][:400]))
         if broken:
             print("ANALYSIS-BROKEN property=%s: %s" % (self.pid, broken))
-            return 2
+            if not self.violations:
+                return 2
         if self.violations:
             os.makedirs(os.path.join(VERIF, "replay"), exist_ok=True)
             for i, v in enumerate(self.violations):
